@@ -923,7 +923,7 @@ func specAtoiOK(s string) bool {
 //@ assigns OperandPegImpl.bitMode, OperandType[]
 
 //@ func generateArithmeticCode
-//@ props C01 C03
+//@ props C01 C03 C14 C10
 //@ option no-panic-obligations unroll-appends
 //@ requires ctx != nil && (ctx.BitMode == cpu.MODE_16BIT || ctx.BitMode == cpu.MODE_32BIT)
 //@ calls[mode] (*ng_operand.OperandPegImpl).WithBitMode : arg1 == ctx.BitMode
@@ -942,7 +942,7 @@ func specAtoiOK(s string) bool {
 //@ assigns OperandPegImpl.bitMode, OperandType[]
 
 //@ func generateLogicalCode
-//@ props C01 C03
+//@ props C01 C03 C14 C10
 //@ option no-panic-obligations unroll-appends
 //@ requires ctx != nil && (ctx.BitMode == cpu.MODE_16BIT || ctx.BitMode == cpu.MODE_32BIT)
 //@ calls[mode] (*ng_operand.OperandPegImpl).WithBitMode : arg1 == ctx.BitMode
@@ -985,7 +985,7 @@ func specLE(b []byte, v int32) bool {
 }
 
 //@ func handleMOV
-//@ props C01 C03 C07
+//@ props C01 C03 C07 C14 C10
 //@ option no-panic-obligations unroll-appends
 //@ requires ctx != nil && (ctx.BitMode == cpu.MODE_16BIT || ctx.BitMode == cpu.MODE_32BIT)
 //@ calls[mode] (*ng_operand.OperandPegImpl).WithBitMode : arg1 == ctx.BitMode
@@ -1010,7 +1010,7 @@ func specLE(b []byte, v int32) bool {
 // ModR/M fields (SDM: "IMUL r32, imm32" is IMUL r32, r32, imm32); three-operand source forms are not
 // decided (the table lookup rejects them today).
 //@ func handleIMUL
-//@ props C01 C03
+//@ props C01 C03 C14 C10
 //@ option no-panic-obligations unroll-appends
 //@ requires ctx != nil && (ctx.BitMode == cpu.MODE_16BIT || ctx.BitMode == cpu.MODE_32BIT)
 //@ calls[mode] (*ng_operand.OperandPegImpl).WithBitMode : arg1 == ctx.BitMode
@@ -1029,7 +1029,7 @@ func specLE(b []byte, v int32) bool {
 //@ assigns OperandPegImpl.bitMode, OperandType[]
 
 //@ func handleNOT
-//@ props C01 C03
+//@ props C01 C03 C14 C10
 //@ option no-panic-obligations unroll-appends
 //@ requires ctx != nil && (ctx.BitMode == cpu.MODE_16BIT || ctx.BitMode == cpu.MODE_32BIT)
 //@ calls[mode] (*ng_operand.OperandPegImpl).WithBitMode : arg1 == ctx.BitMode
@@ -1110,7 +1110,7 @@ func specSregBytesAt(out []byte, off int, enc int) bool {
 }
 
 //@ func handlePUSH
-//@ props C01 C03 C18
+//@ props C01 C03 C18 C14 C10
 //@ option no-panic-obligations unroll-appends
 //@ requires ctx != nil && (ctx.BitMode == cpu.MODE_16BIT || ctx.BitMode == cpu.MODE_32BIT)
 //@ calls[mode] (*ng_operand.OperandPegImpl).WithBitMode : arg1 == ctx.BitMode
@@ -1126,7 +1126,7 @@ func specSregBytesAt(out []byte, off int, enc int) bool {
 //@ assigns OperandPegImpl.bitMode, OperandType[]
 
 //@ func handlePOP
-//@ props C01 C03 C18
+//@ props C01 C03 C18 C14 C10
 //@ option no-panic-obligations unroll-appends
 //@ requires ctx != nil && (ctx.BitMode == cpu.MODE_16BIT || ctx.BitMode == cpu.MODE_32BIT)
 //@ calls[mode] (*ng_operand.OperandPegImpl).WithBitMode : arg1 == ctx.BitMode
